@@ -1116,6 +1116,20 @@ func getRootPrefix(e *Entry) *Value {
 	return nil
 }
 
+// augmentable returns true if e is a node that an augment may add children
+// to: a container, list, choice, case, input, output or notification
+// (RFC 7950, section 7.17), but not, e.g., an rpc, action, anydata or anyxml.
+func (e *Entry) augmentable() bool {
+	if !e.IsDir() || e.RPC != nil {
+		return false
+	}
+	switch e.Kind {
+	case DirectoryEntry, ChoiceEntry, CaseEntry, InputEntry, OutputEntry, NotificationEntry:
+		return true
+	}
+	return false
+}
+
 // Augment processes augments in e, return the number of augments processed
 // and the augments skipped.  If addErrors is true then missing augments will
 // generate errors.
@@ -1131,9 +1145,10 @@ func (e *Entry) Augment(addErrors bool) (processed, skipped int) {
 	var unapplied []*Entry
 	for _, a := range e.Augments {
 		target := a.Find(a.Name)
-		if target == nil || !target.IsDir() {
-			// A target that is not a directory, e.g. a leaf, cannot be
-			// augmented with children.
+		if target == nil || !target.augmentable() {
+			// A target that is not a container, list, choice, case, input,
+			// output or notification, e.g. a leaf, cannot be augmented
+			// with children.
 			if addErrors && target == nil {
 				e.errorf("%s: augment %s not found", Source(a.Node), a.Name)
 			} else if addErrors {
